@@ -5,7 +5,7 @@ PAR=${1:-3}; shift
 mkdir -p /tmp/detect
 IDS=("$@"); [ ${#IDS[@]} -eq 0 ] && IDS=($(ls /verif/seeded))
 printf '%s\n' "${IDS[@]}" | xargs -P $PAR -I{} bash -c '
-  ID={}; PROP=${ID%%-*}
+  ID={}; PROP=${ID%%-*}; CP=$(jq -r ".check_property // empty" /verif/seeded/$ID/meta.json 2>/dev/null); [ -n "$CP" ] && PROP=$CP
   OUT=$(/verif/tools/try_seed.sh /verif/seeded/$ID/patch.diff $PROP quick 2>&1 | grep -v "^KNOWN-FINDING" | tail -3)
   echo "$OUT" > /tmp/detect/$ID.txt
   echo "$ID $(echo "$OUT" | tail -1)" >> /tmp/detect/summary.txt
